@@ -202,23 +202,42 @@ Proof. exact (fit_minimises_penalised_objective F solve solve_spec). Qed.
 End Solver2.
 
 (* (6) the basis matrices the system is built from: every entry of bsplinebasis (the model of splineutil.c's bsplinebasis over its static
-   bspline(), which since fix 33ef56f skips a term whose denominator vanishes) IS the right-continuous Cox–de Boor function with the
-   0/0 := 0 convention — for EVERY knot vector, repeated knots of any multiplicity included (before the fix a repeated knot made the
-   real function return NaN: former finding D23). [knZ kn] is the knot array read through Z indices (BSpline.Bfun's index type). *)
+   bspline(), which since fix 07dbb30 skips a term whose denominator vanishes and since fix F30_1 is told which side of the knots to take)
+   IS the basis function of the evaluation properties' specification: the Cox–de Boor function with the 0/0 := 0 convention, taken
+   right-continuous below knots[nknots-order-1] (the upper end of the fully supported range) and left-continuous from there upwards
+   (BSpline.side_of — so an abscissa exactly on the last knot has a basis row like any other point of the last interval; before fix F30_1
+   its row was identically zero and the data point was silently ignored) — for EVERY knot vector, repeated knots of any multiplicity
+   included (before fix 07dbb30 a repeated knot made the real function return NaN: former finding D23). The fitted design matrix is thus
+   built from exactly the functions ndsplineeval sums (C01). [fit_dim knots order] is the dimension record of the knot vector
+   (nknots = length knots, naxes = nknots-order-1, knots read through Z indices). *)
 Theorem C09_basis_is_cox_de_boor : forall (knots xs : list K) (order r c : nat),
   r < length xs -> c < length knots - order - 1 ->
   nth c (nth r (bsplinebasis knots xs order) []) zero
-  = Bfun (knZ (fun i => nth i knots zero)) true order (Z.of_nat c) (nth r xs zero).
+  = Bfun (d_kn (fit_dim knots order)) (side_of (fit_dim knots order) (nth r xs zero)) order (Z.of_nat c) (nth r xs zero).
 Proof. exact (fit_basis_entry F). Qed.
+(* ... where the side is: x < knots[nknots-order-1] *)
+Theorem C09_basis_side : forall (knots : list K) (order : nat) (x : K),
+  side_of (fit_dim knots order) x = ltb x (nth (length knots - order - 1) knots zero).
+Proof. exact (@fit_dim_side A). Qed.
 
 End C09.
 
 (* (6) on a repeated knot: order 1, knots 0 1 1 2 3, abscissa 3/2: the basis row is 0 1/2 1/2 (the hat function that would span the
-   double knot's empty interval contributes its one live term; nothing is 0/0), and AT the double knot 0 1 0 *)
+   double knot's empty interval contributes its one live term; nothing is 0/0), and AT the double knot 0 1 0; at the upper end of full
+   support (x = 2 = knots[3]) 0 0 1 and at the LAST knot (x = 3) 0 0 0 — the last hat function has come down to zero there, as before
+   fix F30_1: on knots of multiplicity <= order nothing changed.
+   Second part: where fix F30_1 changed the basis. Order 1, knots 0 1 2 3 3 (the last knot doubled, multiplicity order+1: the spline
+   ends with a jump), abscissa exactly on the last knot: the row is 0 0 1 (the left limit; pointwise evaluation gives the last
+   coefficient there), where the right-continuous basis had 0 0 0. Order 0, knots 0 1 2 3, x = 3: 0 0 1. *)
 Example C09_basis_repeated_knot :
-  bsplinebasis (A := QcA) [Q2Qc 0; Q2Qc 1; Q2Qc 1; Q2Qc 2; Q2Qc 3] [Q2Qc (3 # 2); Q2Qc 1] 1
-  = [[Q2Qc 0; Q2Qc (1 # 2); Q2Qc (1 # 2)]; [Q2Qc 0; Q2Qc 1; Q2Qc 0]] /\ (1 < 2 /\ 2 < 5 - 1 - 1).
-Proof. split; [vm_compute; reflexivity | lia]. Qed.
+  bsplinebasis (A := QcA) [Q2Qc 0; Q2Qc 1; Q2Qc 1; Q2Qc 2; Q2Qc 3] [Q2Qc (3 # 2); Q2Qc 1; Q2Qc 2; Q2Qc 3] 1
+  = [[Q2Qc 0; Q2Qc (1 # 2); Q2Qc (1 # 2)]; [Q2Qc 0; Q2Qc 1; Q2Qc 0]; [Q2Qc 0; Q2Qc 0; Q2Qc 1]; [Q2Qc 0; Q2Qc 0; Q2Qc 0]]
+  /\ (1 < 2 /\ 2 < 5 - 1 - 1)
+  /\ bsplinebasis (A := QcA) [Q2Qc 0; Q2Qc 1; Q2Qc 2; Q2Qc 3; Q2Qc 3] [Q2Qc 3; Q2Qc (5 # 2)] 1
+      = [[Q2Qc 0; Q2Qc 0; Q2Qc 1]; [Q2Qc 0; Q2Qc (1 # 2); Q2Qc (1 # 2)]]
+  /\ bsplinebasis (A := QcA) [Q2Qc 0; Q2Qc 1; Q2Qc 2; Q2Qc 3] [Q2Qc 3; Q2Qc 2; Q2Qc 0] 0
+      = [[Q2Qc 0; Q2Qc 0; Q2Qc 1]; [Q2Qc 0; Q2Qc 0; Q2Qc 1]; [Q2Qc 1; Q2Qc 0; Q2Qc 0]].
+Proof. split; [vm_compute; reflexivity |]. split; [lia|]. split; vm_compute; reflexivity. Qed.
 
 (* non-vacuity on exact rationals: two data points, one coefficient:  J(c) = (2 - c)^2 + 3 (1 - 2c)^2,
    A = [[13]], r = [8], minimiser 8/13; A is positive definite *)
@@ -306,3 +325,4 @@ Print Assumptions C09_fit_system_is_normal_system.
 Print Assumptions C09_objective_vocabulary.
 Print Assumptions C09_fit_minimises_penalised_objective.
 Print Assumptions C09_basis_is_cox_de_boor.
+Print Assumptions C09_basis_side.
